@@ -234,6 +234,53 @@ func init() {
 		st.assumeFact(tImp(app(">", xs.Len, "1"), app("str.prefixof", app("str.++", app("select", arr, "0"), sep.S), r)))
 		return &Val{T: types.Typ[types.String], S: r}
 	}
+	// ---- path / url helpers as uninterpreted (functional) library functions
+	models["path.Join"] = func(u *Unit, st *State, x *ast.CallExpr, _ *Val, fn *types.Func) *Val {
+		u.trusted["model: path.Join / path.Clean are uninterpreted functions of their arguments"] = true
+		var parts []string
+		for _, a := range x.Args {
+			parts = append(parts, u.eval(st, a).S)
+		}
+		if len(parts) == 2 && !x.Ellipsis.IsValid() {
+			return &Val{T: types.Typ[types.String], S: app(u.d.fun("fn!path.Join2", []string{SStr, SStr}, SStr), parts...)}
+		}
+		return u.freshVal(st, types.Typ[types.String], "joined")
+	}
+	models["path.Clean"] = func(u *Unit, st *State, x *ast.CallExpr, _ *Val, fn *types.Func) *Val {
+		u.trusted["model: path.Join / path.Clean are uninterpreted functions of their arguments"] = true
+		a := u.eval(st, x.Args[0])
+		return &Val{T: types.Typ[types.String], S: app(u.d.fun("fn!path.Clean", []string{SStr}, SStr), a.S)}
+	}
+	models["strings.Split"] = func(u *Unit, st *State, x *ast.CallExpr, _ *Val, fn *types.Func) *Val {
+		u.trusted["model: strings.Split is an uninterpreted function returning a non-empty slice for a non-empty separator"] = true
+		a, b := u.eval(st, x.Args[0]), u.eval(st, x.Args[1])
+		return u.splitVal(st, a.S, b.S, u.typeOf(x))
+	}
+	models["(*net/url.URL).ResolveReference"] = func(u *Unit, st *State, x *ast.CallExpr, recv *Val, fn *types.Func) *Val {
+		u.trusted["model: URL.ResolveReference(ref): a fresh URL; for a reference without scheme and host it keeps the receiver's Scheme, User and Host, takes ref's RawQuery and an uninterpreted resolved path; an absolute reference is returned as a copy"] = true
+		ref := u.eval(st, x.Args[0])
+		t := recv.T
+		r := u.alloc(st)
+		get := func(p *Val, f string) *Val { return u.loadField(st, p.S, t, f) }
+		rel := tAnd(tEq(get(ref, "Scheme").S, `""`), tEq(get(ref, "Host").S, `""`))
+		for _, f := range []string{"Scheme", "Host", "User"} {
+			a, b := get(recv, f), get(ref, f)
+			u.storeField(st, r, t, f, &Val{T: a.T, S: tIte(rel, u.scalar(st, a), u.scalar(st, b))})
+		}
+		rp := app(u.d.fun("fn!url.resolvePath", []string{SStr, SStr}, SStr), get(recv, "Path").S, get(ref, "Path").S)
+		u.storeField(st, r, t, "Path", &Val{T: types.Typ[types.String], S: tIte(rel, rp, get(ref, "Path").S)})
+		u.storeField(st, r, t, "RawQuery", get(ref, "RawQuery"))
+		u.storeField(st, r, t, "Fragment", get(ref, "Fragment"))
+		return &Val{T: u.typeOf(x), S: r}
+	}
+	models["net/url.Parse"] = func(u *Unit, st *State, x *ast.CallExpr, _ *Val, fn *types.Func) *Val {
+		u.trusted["model: url.Parse returns (fresh *URL, nil) or (nil, err)"] = true
+		u.eval(st, x.Args[0])
+		tp := u.typeOf(x).(*types.Tuple)
+		errV := u.freshVal(st, tp.At(1).Type(), "parse.err")
+		r := u.alloc(st)
+		return &Val{T: tp, Tuple: []*Val{{T: tp.At(0).Type(), S: tIte(tEq(errV.S, "0"), r, "0")}, errV}}
+	}
 	models["strings.TrimPrefix"] = func(u *Unit, st *State, x *ast.CallExpr, _ *Val, fn *types.Func) *Val {
 		a, b := u.eval(st, x.Args[0]), u.eval(st, x.Args[1])
 		return &Val{T: types.Typ[types.String], S: tIte(app("str.prefixof", b.S, a.S), app("str.substr", a.S, app("str.len", b.S), app("-", app("str.len", a.S), app("str.len", b.S))), a.S)}
@@ -993,4 +1040,12 @@ func isASCII(s string) bool {
 func (u *Unit) joinTerm(xs *Val, sep string) string {
 	f := u.d.fun("fn!strings.Join", []string{arrSort(SInt, SStr), SInt, SStr}, SStr)
 	return app(f, xs.Arr, xs.Len, sep)
+}
+
+func (u *Unit) splitVal(st *State, s, sep string, t types.Type) *Val {
+	fa := u.d.fun("fn!strings.Split.arr", []string{SStr, SStr}, arrSort(SInt, SStr))
+	fl := u.d.fun("fn!strings.Split.len", []string{SStr, SStr}, SInt)
+	v := &Val{T: t, Arr: app(fa, s, sep), Len: app(fl, s, sep), Nil: "false"}
+	st.assumeFact(app(">=", v.Len, "1"))
+	return v
 }
